@@ -308,6 +308,81 @@ func c16connect(op []string) string {
 	return obs
 }
 
+// c16reconnect: a component session is established, the server closes the stream gracefully (the receive loop
+// stops, the state stays "established"), then Resume() meets a server that answers the handshake with `reply`.
+// Observation: the class of the reply, the error class of Resume, the component's state afterwards.
+func c16reconnect(reply string) string {
+	cls := c16class(reply)
+	ln, err := net.Listen("tcp", "127.0.0.1:0")
+	if err != nil {
+		return "listen-failed"
+	}
+	defer ln.Close()
+	header := c16header([]c16attr{{"", "id", "sid"}}, "named")
+	firstClosed := make(chan struct{})
+	sent2 := make(chan struct{})
+	go func() {
+		// connection 1: a proper handshake, then </stream:stream>
+		conn, err := ln.Accept()
+		if err != nil {
+			close(firstClosed)
+			close(sent2)
+			return
+		}
+		got := "~"
+		s1 := make(chan struct{})
+		fin := make(chan struct{})
+		close(fin)
+		c16serve(conn, header, "<handshake/>", 0, false, true, &got, s1, fin)
+		close(firstClosed)
+		// connection 2: the reply under test
+		conn2, err := ln.Accept()
+		if err != nil {
+			close(sent2)
+			return
+		}
+		fin2 := make(chan struct{})
+		go func() { time.Sleep(300 * time.Millisecond); close(fin2) }()
+		c16serve(conn2, header, reply, 0, false, cls == "handshake", &got, sent2, fin2)
+	}()
+	opts := xmpp.ComponentOptions{
+		TransportConfiguration: xmpp.TransportConfiguration{Address: ln.Addr().String(), Domain: "comp.localhost", ConnectTimeout: 1},
+		Domain:                 "comp.localhost", Secret: "s", Name: "verif", Category: "gateway", Type: "service",
+	}
+	c, err := xmpp.NewComponent(opts, xmpp.NewRouter(), func(error) {})
+	if err != nil {
+		return "newcomponent-failed"
+	}
+	c.SetHandler(func(e xmpp.Event) error { return nil })
+	if err := c.Connect(); err != nil {
+		return "first-connect-failed"
+	}
+	select {
+	case <-firstClosed:
+	case <-time.After(5 * time.Second):
+		return "first-close-timeout"
+	}
+	time.Sleep(20 * time.Millisecond) // the receive loop has seen the closing tag
+	before := int(xmpp.VerifComponentState(c))
+	rerr := c.Resume()
+	select {
+	case <-sent2:
+	case <-time.After(5 * time.Second):
+	}
+	e := "nil"
+	if rerr != nil {
+		e = "err"
+		if xmpp.VerifIsPermanent(rerr) {
+			e = "perm"
+		}
+	}
+	after := int(xmpp.VerifComponentState(c))
+	if t := xmpp.VerifComponentTransport(c); t != nil {
+		go t.Close()
+	}
+	return fmt.Sprintf("%s %d %s %d", cls, before, e, after)
+}
+
 func (c16) Exec(c Case) []string {
 	obs := make([]string, len(c.Ops))
 	var wg sync.WaitGroup
@@ -319,6 +394,17 @@ func (c16) Exec(c Case) []string {
 		case "digest":
 			comp, _ := xmpp.NewComponent(xmpp.ComponentOptions{Secret: unhx(op[2])}, xmpp.NewRouter(), func(error) {})
 			obs[i] = hx(xmpp.VerifComponentHandshake(comp, unhx(op[1])))
+		case "reconnect":
+			wg.Add(1)
+			go func(i int, op []string) {
+				defer wg.Done()
+				defer func() {
+					if r := recover(); r != nil {
+						obs[i] = fmt.Sprintf("panic:%v", r)
+					}
+				}()
+				obs[i] = c16reconnect(unhx(op[2]))
+			}(i, op)
 		case "connect":
 			wg.Add(1)
 			go func(i int, op []string) {
@@ -470,6 +556,16 @@ func (c16) Generate(rng *rand.Rand, tier string, st *Stats) []Case {
 		sec := make([]byte, rng.Intn(20))
 		rng.Read(sec)
 		connect(as, "", []string{"named", "numeric"}[rng.Intn(2)], string(sec), replies[rng.Intn(len(replies))], rng.Intn(3))
+	}
+	flush()
+
+	// a second life: established, closed gracefully by the server, then Resume() against every reply
+	for _, r := range replies {
+		pending = append(pending, []string{"reconnect", r.class, hx(r.bytes)})
+		st.Inc("reconnect_after_graceful_close")
+		if len(pending) >= 12 {
+			flush()
+		}
 	}
 	flush()
 
